@@ -80,6 +80,13 @@ ASSUMPTIONS = [
     "compute(), and only for fill/compute elements",
     "types of yielded numbers are compared only between the element after reset and its fresh twin",
     "Graph: the context may be extended by the keys scale and dim only",
+    "Count(name=...): the key the element adds is named by the user; names are non-empty strings of every "
+    "shape relative to the filled contexts (dotted with the first part a sub-dictionary / a plain value / "
+    "absent in the context, spelling the path of an existing nested item, three parts deep, equal to an "
+    "existing plain key or sub-dictionary, containing braces, a slash, a space), with the default and a "
+    "non-default start counter; judged by the documented dict.update({name: count}): exactly one flat key "
+    "named name, every other item of the last value's context as it was filled; the public attributes "
+    "name and count are compared with the fresh twin's; the empty name is left out",
     "FillRequest / FillRequestSeq are driven block-aligned only (bufsize fills, then request()), and "
     "reset() is called only between blocks: their reset documents resetting the wrapped element, not "
     "the adapter's own counters (mid-block behaviour belongs to C16)",
@@ -98,7 +105,7 @@ ASSUMPTIONS = [
     "elements needing numpy (NumpyHistogram) are outside the alphabet; the deprecated private _GroupBy "
     "(kept for GroupPlots) is not a framework element",
 ]
-NONTRIVIAL_FLOOR = {"quick": 24000, "thorough": 100000}
+NONTRIVIAL_FLOOR = {"quick": 30000, "thorough": 100000}
 BUDGET_S = {"quick": 240, "thorough": 1500}
 
 DEPTH = {"quick": 4, "thorough": 6}
@@ -128,16 +135,24 @@ BLOCKS1 = [[1], [0.5], [(3, CTX1)]]
 BLOCKS2 = [[1, -2], [0.5, (3, CTX1)], [(4, CTX2), 1]]
 ZBLOCKS1 = [[1], [0.5], [(BIG, CTX1)]]
 ZBLOCKS2 = [[1, -2], [0.5, (BIG, CTX1)], [(4, CTX2), 1]]
+# The key an element adds to the context under a name the USER chooses (Count(name=...)): every shape of
+# name relative to the contexts of COUNTN - a dotted name whose first part is a sub-dictionary / a plain
+# value / absent in the context of the last value, a dotted name that spells the path of an existing
+# nested item, a deep dotted name, a name equal to an existing plain key and to an existing sub-dictionary
+# (documented: dict.update with {name: count} - one flat key, an equal key is replaced), names with
+# characters that mean something to str.format or to a path ('{n}', 'a/n', 'n events').
+COUNT_NAMES = ["a.n", "k.n", "a.b", "x.y.z", "k", "a", "{n}", "a/n", "n events"]
+COUNTN = [1, (BIG, CTX1), (0, CTX2), (5, {"a": 7, "x": {"y": 1}})]
 
 
 def describe(tier):
     return ("all histories of length <= %d over fill(v) | compute | reset for %d element configurations "
-            "(value pools of 5..9 values per element), compute taken by list() or value by value by a "
+            "(value pools of 4..9 values per element; Count under %d user-chosen names of its context key), compute taken by list() or value by value by a "
             "consumer that updates each received context in place, de-duplicated on canonical state; FillRequest "
             "adapters and Zip of FillRequest branches: block | reset histories of the same length; the same "
             "with length <= %d after a sibling instance was active, and for a deep copy of a new element "
             "whose original stays alive"
-            % (DEPTH[tier], len(CONFIGS), DEPTH[tier] - 1))
+            % (DEPTH[tier], len(CONFIGS), len(COUNT_NAMES) + 2, DEPTH[tier] - 1))
 
 
 # ---------------------------------------------------------------------------------------------------
@@ -209,6 +224,15 @@ def _configs():
         lambda: M.CountModel("n", 3), NUM, twin=lambda: Count(name="n"),
         model_fresh=lambda: M.CountModel("n", 0), peek=lambda el: el.count,
         sibling=lambda: Count(name="sibling", count=7))
+    named = lambda el: (el.name, el.count)
+    for nm in COUNT_NAMES:
+        add("Count(name=%r)" % nm, "Count", (lambda nm=nm: Count(name=nm)),
+            (lambda nm=nm: M.CountModel(nm)), COUNTN, peek=named,
+            sibling=(lambda nm=nm: Count(name=nm, count=7)))
+    add("Count(name='a.n', count=3)", "Count", lambda: Count(name="a.n", count=3),
+        lambda: M.CountModel("a.n", 3), COUNTN, twin=lambda: Count(name="a.n"),
+        model_fresh=lambda: M.CountModel("a.n", 0), peek=named,
+        sibling=lambda: Count(name="a", count=7))
     add("Sum()", "Sum", lambda: Sum(), lambda: M.SumModel(), NUM, peek=total, refused=["s"])
     add("Sum(total=5)", "Sum", lambda: Sum(total=5), lambda: M.SumModel(5), NUM,
         twin=lambda: Sum(), model_fresh=lambda: M.SumModel(), peek=total)
@@ -817,13 +841,16 @@ LEVEL_TEXT = ("explicit-state model checking of the real accumulator objects: br
               "number types), under a consumer that takes all values at once and under one that updates the "
               "context of every received value in place before it takes the next; repeated one level "
               "shallower after sibling activity and for deep copies of "
-              "the elements (original must stay undisturbed)" % len(CONFIGS))
-LEVEL_NOTE = ("bounded: histories up to the stated depth over per-element value pools of 5..9 values; "
+              "the elements (original must stay undisturbed); the key an element adds under a "
+              "user-chosen name (Count) over names of every shape relative to the filled contexts"
+              % len(CONFIGS))
+LEVEL_NOTE = ("bounded: histories up to the stated depth over per-element value pools of 4..9 values; "
+              "user-chosen context keys (Count names) from a list of %d shapes, never empty; "
               "FillRequest adapters and Zip of FillRequest branches only block-aligned; NumpyHistogram "
               "outside the alphabet; "
               "the updating consumer touches contexts only and request() of the adapters is taken at once; "
               "object identity (aliasing as such) of yielded contexts is judged by C04, here only its "
-              "effect on what a consumer receives")
+              "effect on what a consumer receives" % (len(COUNT_NAMES) + 2))
 TECHNIQUE = ("explicit-state BFS over the real transition function with state de-duplication; reference "
              "models (len, fold, Fraction sums, cell dictionary, partition by canonical key), a "
              "reset-vs-fresh twin and an original-vs-deep-copy pair as oracles; consumer schedules of "
